@@ -359,6 +359,36 @@ fn op_evaluator<T: Evaluate + Num>(c: &Value) -> Vec<u64> {
     }
     o
 }
+// per query: the stateful evaluator's answer, then Piecewise::evaluate on the same argument (same function, fresh search)
+fn op_evaluator_direct<T: Evaluate + Num>(c: &Value) -> Vec<u64> {
+    let segs = parse_segs::<T>(&c["segs"]);
+    let pw = Piecewise { segments: segs.clone() };
+    let mut ev = PiecewiseEvaluator::new(&segs);
+    let mut o = Vec::new();
+    for &x in u64s(&c["xs"]).iter() {
+        o.push(ev.evaluate(f(x)).to_bits());
+        o.push(pw.evaluate(f(x)).to_bits());
+    }
+    o
+}
+// per argument: the batch answer, then the piece selected by the RUNNING MAXIMUM of the arguments so far (first end above it,
+// else the last piece - chosen here, through the public fields) evaluated AT the argument
+fn op_evaluate_v_rm<T: Evaluate + Num>(c: &Value) -> Vec<u64> {
+    let pw = Piecewise { segments: parse_segs::<T>(&c["segs"]) };
+    let xs: Vec<f64> = u64s(&c["xs"]).iter().map(|&x| f(x)).collect();
+    let got: Vec<f64> = pw.evaluate_v(xs.clone()).collect();
+    let mut o = Vec::new();
+    let mut m = f64::NEG_INFINITY;
+    for (x, g) in xs.iter().zip(got.iter()) {
+        if *x > m {
+            m = *x;
+        }
+        let seg = pw.segments.iter().find(|s| s.end > m).unwrap_or_else(|| pw.segments.last().expect("segments"));
+        o.push(g.to_bits());
+        o.push(seg.poly.evaluate(*x).to_bits());
+    }
+    o
+}
 fn op_evaluate_v<T: Evaluate + Num>(c: &Value) -> Vec<u64> {
     let pw = Piecewise { segments: parse_segs::<T>(&c["segs"]) };
     let xs: Vec<f64> = u64s(&c["xs"]).iter().map(|&x| f(x)).collect();
@@ -481,6 +511,19 @@ fn op_pw_sub(c: &Value) -> Vec<u64> {
     let b = Piecewise { segments: parse_segs::<IntOfLogPoly4>(&c["g"]) };
     dump_segs(&(&a - &b).segments)
 }
+// values: per argument (f op g)(x), f(x), g(x), all through Piecewise::evaluate ("sub": true for the difference)
+fn op_pw_merge_eval(c: &Value) -> Vec<u64> {
+    let a = Piecewise { segments: parse_segs::<IntOfLogPoly4>(&c["f"]) };
+    let b = Piecewise { segments: parse_segs::<IntOfLogPoly4>(&c["g"]) };
+    let h = if c["sub"].as_bool().unwrap_or(false) { &a - &b } else { &a + &b };
+    let mut o = vec![h.segments.len() as u64];
+    for &x in u64s(&c["xs"]).iter() {
+        o.push(h.evaluate(f(x)).to_bits());
+        o.push(a.evaluate(f(x)).to_bits());
+        o.push(b.evaluate(f(x)).to_bits());
+    }
+    o
+}
 fn op_linear(c: &Value) -> Vec<u64> {
     dump_segs(&linear(&parse_knots(&c["knots"])).segments)
 }
@@ -538,6 +581,19 @@ fn op_arbitrary<T: Num + for<'a> arbitrary::Arbitrary<'a>>(c: &Value) -> Vec<u64
     let bytes: Vec<u8> = u64s(&c["bytes"]).iter().map(|&b| b as u8).collect();
     let mut u = arbitrary::Unstructured::new(&bytes);
     match <Piecewise<T> as arbitrary::Arbitrary>::arbitrary(&mut u) {
+        Err(_) => vec![0],
+        Ok(pw) => {
+            let mut o = vec![1];
+            o.extend(dump_segs(&pw.segments));
+            o
+        }
+    }
+}
+// the trait's other entry point (what Unstructured::arbitrary_take_rest and fuzz targets call)
+fn op_arbitrary_rest<T: Num + for<'a> arbitrary::Arbitrary<'a>>(c: &Value) -> Vec<u64> {
+    let bytes: Vec<u8> = u64s(&c["bytes"]).iter().map(|&b| b as u8).collect();
+    let u = arbitrary::Unstructured::new(&bytes);
+    match <Piecewise<T> as arbitrary::Arbitrary>::arbitrary_take_rest(u) {
         Err(_) => vec![0],
         Ok(pw) => {
             let mut o = vec![1];
@@ -716,6 +772,8 @@ fn run_case(c: &Value) -> Vec<u64> {
         "pw_eval" => t_all!(ty; op_pw_eval(c)),
         "evaluator" => t_all!(ty; op_evaluator(c)),
         "evaluate_v" => t_all!(ty; op_evaluate_v(c)),
+        "evaluator_direct" => t_all!(ty; op_evaluator_direct(c)),
+        "evaluate_v_rm" => t_all!(ty; op_evaluate_v_rm(c)),
         "evaluate_v_lazy" => t_all!(ty; op_evaluate_v_lazy(c)),
         "evaluate_v_pt" => t_all!(ty; op_evaluate_v_pt(c)),
         "pw_derivative" => t_poly!(ty; op_pw_derivative(c)),
@@ -736,6 +794,7 @@ fn run_case(c: &Value) -> Vec<u64> {
         "pw_translate" => t_all!(ty; op_pw_translate(c)),
         "pw_add" => op_pw_add(c),
         "pw_sub" => op_pw_sub(c),
+        "pw_merge_eval" => op_pw_merge_eval(c),
         "integral_eval" => t_integrable!(ty; op_log_integral(c)),
         "linear" => op_linear(c),
         "spline" => op_spline(c),
@@ -743,6 +802,7 @@ fn run_case(c: &Value) -> Vec<u64> {
         "polyn_translate" => op_polyn_translate(c),
         "pw_translate_polyn" => op_pw_translate_polyn(c),
         "arbitrary" => t_poly!(ty; op_arbitrary(c)),
+        "arbitrary_rest" => t_poly!(ty; op_arbitrary_rest(c)),
         "arbitrary_nested" => t_poly!(ty; op_arbitrary_nested(c)),
         "arb_eval_nested" => t_poly!(ty; op_arb_eval_nested(c)),
         "arb_vec_f64" => op_arb_vec_f64(c),
